@@ -63,7 +63,7 @@ func runC04(c *fw.Case) {
 	extra := map[string]any{"base_request": base, "jobs": res.Jobs}
 	c.Count("base_requests", 1)
 	if res.Stuck {
-		c.Violation("C04/liveness/request-stuck-no-job-in-flight", "the base request made no progress for 20 s with no tier2 job in flight", s.witness(extra))
+		c.Violation("C04/liveness/request-stuck-no-job-in-flight", "the base request made no progress for 45 s with no tier2 job in flight", s.witness(extra))
 		return
 	}
 	if res.Err != nil {
@@ -112,7 +112,7 @@ func runC04(c *fw.Case) {
 					c.Count("known_hang_shape_stuck", 1)
 					continue
 				}
-				c.Violation("C04/liveness/request-stuck-no-job-in-flight", "the resumed request made no progress for 20 s with no tier2 job in flight", s.witness(ex))
+				c.Violation("C04/liveness/request-stuck-no-job-in-flight", "the resumed request made no progress for 45 s with no tier2 job in flight", s.witness(ex))
 				return
 			}
 			if rr.Err != nil {
